@@ -1193,7 +1193,7 @@ class Exec:
             raise Unsupported("iteration over a symbolic string")
         if hasattr(v, "_iterable"):
             return v._iterable(self)
-        raise SymRaise("TypeError", f"{typetag(v)} object is not iterable")
+        raise program_type_error(v, f"{typetag(v)} object is not iterable")
 
 
 def _own_nodes(fdef):
